@@ -12,6 +12,7 @@ T: seeded random data sets of up to thousands of records (files larger than the 
    workers, random merge trees): AggregTrace.tla re-evaluates the definitions on every logged run.
 """
 import json
+import os
 import re
 import vlib
 
@@ -33,10 +34,37 @@ def replay_cases(ctx, cases_path, bindir, timeout=3000):
     return ctx.add_results(res)
 
 
+CHUNK_BYTES = 24 << 20      # TLC holds the whole decoded trace in memory: validate long traces by pieces
+
+
 def validate(ctx, trace, heap=None, timeout=900):
-    events, verdicts = ctx.trace_validate("AggregTrace", "AggregTrace.cfg", trace, timeout=timeout, heap=heap)
-    if len(verdicts) != len(events):
-        raise vlib.Inconclusive("AggregTrace gave %d verdicts for %d events" % (len(verdicts), len(events)))
+    pieces, cur, size = [], [], 0
+    for line in open(trace):
+        if cur and size + len(line) > CHUNK_BYTES:
+            pieces.append(cur)
+            cur, size = [], 0
+        cur.append(line)
+        size += len(line)
+    if cur:
+        pieces.append(cur)
+    all_events, all_verdicts = [], []
+    for k, lines in enumerate(pieces):
+        part = trace
+        if len(pieces) > 1:
+            part = "%s.part%d" % (trace, k)
+            open(part, "w").writelines(lines)
+        events, verdicts = ctx.trace_validate("AggregTrace", "AggregTrace.cfg", part, timeout=timeout, heap=heap)
+        if len(verdicts) != len(events):
+            raise vlib.Inconclusive("AggregTrace gave %d verdicts for %d events" % (len(verdicts), len(events)))
+        report(ctx, events, verdicts)
+        all_events += events
+        all_verdicts += verdicts
+        if len(pieces) > 1:
+            os.remove(part)
+    return all_events, all_verdicts
+
+
+def report(ctx, events, verdicts):
     for v in verdicts:
         ev = events[v["l"] - 1]
         key = "T:" + v["cls"]
@@ -49,7 +77,6 @@ def validate(ctx, trace, heap=None, timeout=900):
             ctx.violation("X02." + why, v["cls"],
                           "%s on %d records [%s]: rejected by AggregTrace (%s) %s" % (what, n, ev.get("input", "in-process"), why, ev.get("note", "")),
                           {"event": slim, "rerun": ev.get("gen")})
-    return events, verdicts
 
 
 def main(ctx):
@@ -114,7 +141,7 @@ def main(ctx):
 
     # T ---------------------------------------------------------------------------------------
     trace = ctx.path("trace.ndjson")
-    n = 2100 if thorough else 84
+    n = 5600 if thorough else 84
     ctx.harness(["record", "X02", "--out", trace, "--n", n, "--opt", "bindir=" + bindir,
                  "--opt", "maxrecs=%d" % (3000 if thorough else 1200)], timeout=1800)
     events, verdicts = validate(ctx, trace, heap="8g", timeout=2400)
